@@ -45,8 +45,8 @@ def scan(m, where):
         # a number that is not a Quantity: only SymPy's structural numbers are allowed (the coefficient -1 of a negation or
         # difference, exponents); any other bare number multiplied or added into an equation has no unit at all
         import sympy
-        exponents = {p.exp for p in eq.atoms(sympy.Pow)}
-        floats = [a for a in eq.atoms(sympy.Float) if not isinstance(a, M.Quantity) and a not in exponents]
+        exempt = getattr(m, '_verif_user_floats', ())     # bare floats the harness itself wrote into an API-built model
+        floats = [a for a in eq.atoms(sympy.Float) if not isinstance(a, M.Quantity) and a not in exempt]
         if floats:
             # every number of a model is a Quantity; SymPy's own structural numbers are Integers / Rationals, never Floats
             bad.append(('%s: bare floating-point number(s) %s (no Quantity, hence no unit) in equation for %s'
@@ -182,6 +182,16 @@ def run_doc(args):
                 again = m.units.convert_expression_recursively(new, None)
                 if again is not new:
                     bad.append(('%s: a second unit-fix pass over %s changes it again' % (fname, new), {'where': 'mixfix'}))
+                if rng.random() < 0.6:
+                    # a power whose exponent is ONE number in a scaled dimensionless unit (50 [percent]): the pass makes the
+                    # exponent a plain number, and that number is a quantity of the model too
+                    if not m.units.is_defined('c18_pc'):
+                        m.units.add_unit('c18_pc', 'dimensionless * 0.01')
+                    w = m.add_variable('c18$poww%d' % j, 'dimensionless')
+                    inv = m.create_quantity(1.0, m.units.get_unit('dimensionless') / some.units)
+                    eqp = sympy.Eq(w, (m.create_quantity(2.0, 'dimensionless') + inv * some)
+                                   ** m.create_quantity(rng.choice([50.0, 200.0, 150.0]), m.units.get_unit('c18_pc')))
+                    m.add_equation(m.units.convert_expression_recursively(eqp, None))
             elif kind == 'edit':
                 v = m.add_variable('c18$extra%d' % j, 'dimensionless')
                 some = rng.choice(list(m.variables()))
@@ -206,7 +216,7 @@ def run_api_singular(seed):
     model scanned after every removal (numbers created during the analysis must not be shared between models)"""
     import sympy as sp
     from cellmlmanip import parser
-    from cellmlmanip.model import Model
+    from cellmlmanip.model import Model, Quantity
     rng = random.Random(seed)
     EXP = parser.SIMPLE_MATHML_TO_SYMPY_CLASSES['exp']
     bad = []
@@ -230,7 +240,7 @@ def run_api_singular(seed):
         excluded = []
         for j in range(rng.randint(1, 3)):
             a = m.add_variable('a%d' % j, d)
-            slope = rng.choice([0.16, -0.04, 0.1, -1.0])
+            slope = rng.choice([0.16, -0.04, 0.1, -1.0, 5.0, -8.0])       # steep ones: the two window ends nearly coincide
             named = rng.random() < 0.35
 
             def num(x, u, tag):
@@ -240,7 +250,7 @@ def run_api_singular(seed):
                 kv = m.add_variable('k%d_%s' % (j, tag), u)
                 m.add_equation(sp.Eq(kv, q(x, u)))
                 return kv
-            offs = rng.choice([-10.0, 30.0, 4.0, -2.5])
+            offs = rng.choice([-10.0, 30.0, 4.0, -2.5, -50.0])
             if rng.random() < 0.5:
                 U = num(slope, per_mV, 's') * V + q(-slope * offs, d)
             else:
@@ -284,6 +294,7 @@ def run_api_singular(seed):
             m.add_equation(sp.Eq(a, rhs))
             names.append(a)
         m.add_equation(sp.Eq(sp.Derivative(V, t), sum(names[1:], names[0]) * q(1, mV_per_ms)))
+        m._verif_user_floats = {f for eq in m.equations for f in eq.atoms(sp.Float) if not isinstance(f, Quantity)}
         models.append((m, V, excluded))
     for k, (m, V, excluded) in enumerate(models):
         try:
